@@ -292,9 +292,6 @@ func (w *world) do(c octx, variant string, q reqSpec, s string) *httptest.Respon
 	if strings.Contains(b, sentinelM) {
 		w.viol("served-sentinel/"+c.name, fmt.Sprintf("%s %s answered %d with the content of a file outside the configured directories", q.method, r.URL.EscapedPath(), rr.Code), c.name+"/"+variant)
 	}
-	if strings.Contains(b, "PWMARK") {
-		w.viol("served-password/"+c.name, fmt.Sprintf("%s %s answered %d with a stored password", q.method, r.URL.EscapedPath(), rr.Code), c.name+"/"+variant)
-	}
 	if rr.Code/100 == 2 || rr.Code == http.StatusSeeOther {
 		w.served++
 	}
@@ -379,7 +376,7 @@ func (w *world) driveHTTP(s string, form int, v string) {
 				g = s[:i]
 			}
 			if !refGroup(g) {
-				w.servedInvalid(c, v, fmt.Sprintf("GET /recordings/%s answered %d", encAll(s), rr.Code), g)
+				w.servedInvalid(c, v, fmt.Sprintf("GET /recordings/<name>/<file> (%q) answered %d", s, rr.Code), g)
 			}
 		}
 	}, nil)
@@ -599,7 +596,10 @@ func listDir(dir string) map[string]bool {
 }
 
 func (w *world) driveRecording(s string) {
-	san := diskwriter.VerifC19Sanitise(s)
+	san := ""
+	if s != "" { // openDiskFile only sanitises non-empty usernames
+		san = diskwriter.VerifC19Sanitise(s)
+	}
 	if strings.ContainsAny(san, "/\\") {
 		w.viol("sanitise-keeps-separator", fmt.Sprintf("sanitise(%q) = %q still contains a path separator", s, san), "sanitise")
 	}
@@ -641,8 +641,12 @@ func (w *world) driveRecording(s string) {
 			if err == nil {
 				w.recMade++
 				base := filepath.Base(name)
-				if len(created) != 1 || created[0] != base || !strings.Contains(base, san) || strings.ContainsAny(base, "/\\") {
-					w.viol("recording-misplaced", fmt.Sprintf("username %q: openDiskFile reported %q but the group's directory gained %q", s, name, created), c.name)
+				if filepath.Dir(name) != dir {
+					w.viol("recording-misplaced", fmt.Sprintf("username %q: the recording %q is not directly in the group's directory %s", s, w.sb.rel(name), w.sb.rel(dir)), c.name)
+				} else if strings.Contains(base, "\\") {
+					w.viol("recording-name-unsanitised", fmt.Sprintf("recording file %q of user %q has a path separator in its name", w.sb.rel(name), s), c.name)
+				} else if len(created) != 1 || created[0] != base || !strings.Contains(base, san) {
+					w.viol("recording-misplaced", fmt.Sprintf("username %q: openDiskFile reported %q but the group's directory gained %q", s, w.sb.rel(name), created), c.name)
 				}
 				w.recOut.Add(fmt.Sprintf("created/%v", san == s))
 			} else {
